@@ -22,6 +22,9 @@ for n in names:
         out = "caught" if rc == 1 and "VIOLATION" in p.stdout else "missed" if rc == 0 else "error(rc=%d)" % rc
         if "does not apply" in p.stdout:
             out = "patch does not apply to the current tree"
-        res.setdefault(n, {})[chk] = out
         print(n, chk, out, flush=True)
-        json.dump(res, open(RES, "w"), indent=1, sort_keys=True)
+        # several lanes may run at once: merge into the file's current content
+        cur = json.load(open(RES)) if os.path.exists(RES) else {}
+        cur.setdefault(n, {})[chk] = out
+        res = cur
+        json.dump(cur, open(RES, "w"), indent=1, sort_keys=True)
